@@ -165,7 +165,7 @@ func (e *lenEnv) of(v ssa.Value) VLin {
 }
 
 func (e *lenEnv) lenOf(x ssa.Value) VLin {
-	x = strip(x)
+	x = resultOf(x)
 	switch s := x.(type) {
 	case *ssa.Const:
 		if s.Value == nil {
@@ -428,7 +428,7 @@ func (e *lenEnv) copyComplete(c *ssa.Call) (bool, string) {
 
 func builtinCalls(fn *ssa.Function, name string) []*ssa.Call {
 	var out []*ssa.Call
-	for _, in := range instrsOf(fn) {
+	for _, in := range instrsDeep(fn) {
 		if c, ok := in.(*ssa.Call); ok {
 			if b, ok := c.Call.Value.(*ssa.Builtin); ok && b.Name() == name {
 				out = append(out, c)
@@ -455,7 +455,7 @@ type streamEnv struct {
 
 // rootAndOffset: v = B[lo:...][lo2:...] → (B, Σ lo) with the unresolved (atom) form of copy results.
 func (se *streamEnv) rootAndOffset(v ssa.Value) (ssa.Value, VLin) {
-	v = strip(v)
+	v = resultOf(v)
 	off := vconst(0)
 	for i := 0; i < 6; i++ {
 		s, ok := v.(*ssa.Slice)
@@ -484,7 +484,7 @@ func (se *streamEnv) sameObj(a, b ssa.Value) bool {
 
 // segsOf: what bytes a slice value holds when it is written at `at`.
 func (se *streamEnv) segsOf(v ssa.Value, at ssa.Instruction, depth int) []segment {
-	v = strip(v)
+	v = resultOf(v)
 	if depth > 4 {
 		return []segment{{Src: "unresolved value " + v.Name()}}
 	}
